@@ -45,6 +45,36 @@ def run(ctx):
         else:
             ctx.ok("R2", "sql-kind:%s:%s:%s" % (k, s.stmt.get("table"), s.body.id.split("::")[-1]), where)
     ctx.floor("R2", "SQL statements", n, 12)
+    # R8: the step that stamps a schema version must know the table really has that version's columns
+    for s in M.sites:
+        if s.stmt and s.stmt["kind"] == "create" and s.stmt["table"] == "leases":
+            ctx.check(not s.stmt["if_not_exists"], "R8", "create-leases:%s" % ("fails-if-present" if not s.stmt["if_not_exists"] else "if-not-exists-hides-legacy-table"),
+                      ctx.where(s.body, s.term["sp"]),
+                      "`CREATE TABLE IF NOT EXISTS leases` succeeds silently on a database that already has an older `leases` table; the step "
+                      "then records the newest schema version although the old table lacks the newer columns, the additive upgrade "
+                      "steps are skipped, and every later statement naming those columns fails")
+    # every column any statement uses exists in the newest schema (CREATE columns + ALTER-added columns)
+    have = set()
+    for s in M.sites:
+        if s.stmt and s.stmt["table"] == "leases":
+            if s.stmt["kind"] == "create":
+                have |= set(s.stmt["columns"])
+            if s.stmt["kind"] == "alter":
+                have.add(s.stmt["column"])
+    for s in M.sites:
+        if s.stmt and s.stmt["table"] == "leases" and s.stmt["kind"] == "insert":
+            missing = [c for c in s.stmt["cols"] if c not in have]
+            ctx.check(not missing, "R8", "columns-written-exist:%s" % s.body.id.split("::")[-1], ctx.where(s.body, s.term["sp"]), "missing %s" % missing)
+    # the legacy (version 0) schema must still be upgraded: the 0 -> 1 step is reachable for an unversioned database that has the table
+    probes = [s for s in M.sites if s.stmt and s.stmt["kind"] == "select" and s.stmt["table"] == "leases" and s.stmt.get("limit") == ("num", 1) and
+              s.stmt["items"] and s.stmt["items"][0][0][0] == "num"]
+    creates = [s for s in M.sites if s.stmt and s.stmt["kind"] == "create" and s.stmt["table"] == "leases"]
+    for c in creates:
+        same = [p_ for p_ in probes if p_.body.id == c.body.id]
+        okk = bool(same) and all(cfg_of(c.body).dominates(p_.bb, c.bb) for p_ in same)
+        ctx.check(okk, "R8", "legacy-table-probed-before-create", ctx.where(c.body, c.term["sp"]),
+                  "an unversioned database may already contain a version-0 `leases` table: the function must probe for it (SELECT 1 FROM leases "
+                  "LIMIT 1) before creating the newest schema, and report version 0 when it exists")
     _r3_r4(ctx, M, cg)
     _r5(ctx, cg)
 
